@@ -74,7 +74,7 @@ def confirm(run, v):
     else:
         case = {'entry': 'process', 'device': v['device'], 'input': v['input'], 'n': v['n'], 'chunks': v.get('chunks') or [], 'tail': 1, 'script': v.get('script')}
     detail = {}
-    ok_all = True
+    ok_all = False      # reproduced in the dev or the release profile (both recorded)
     for rel in (False, True):
         obs = run.native([case], release=rel)[0]
         if v['rule'] in ('PANIC', 'HANG'):
@@ -89,5 +89,5 @@ def confirm(run, v):
         else:
             ok = False
         detail['release' if rel else 'dev'] = {'observation': obs, 'reproduced': ok}
-        ok_all = ok_all and ok
+        ok_all = ok_all or ok
     return ok_all, detail
